@@ -160,15 +160,6 @@ class RetractionState(CommonMixin):
         else:
             amount = self.extrusionAmount * direction
             eAxis = position.E_AXIS
-            if (not eAxis.absoluteMode):
-                # Relative extruder mode: the printer expects the distance to move the filament
-                returnCommands.append(
-                    "G1 F{f} E{e}".format(
-                        e=formatNumber(-amount / eAxis.unitMultiplier),
-                        f=formatNumber(self.feedRate / eAxis.unitMultiplier)
-                    )
-                )
-                return returnCommands
 
             eAxis.current += amount
 
@@ -179,10 +170,16 @@ class RetractionState(CommonMixin):
 
             eAxis.current -= amount
 
+            if (eAxis.absoluteMode):
+                extruderValue = eAxis.nativeToLogical()
+            else:
+                # Relative extruder mode: the printer expects the distance to move the filament
+                extruderValue = -amount / eAxis.unitMultiplier
+
             # Use "G1" over "G0", since an extrusion amount is being supplied
             returnCommands.append(
                 "G1 F{f} E{e}".format(
-                    e=formatNumber(eAxis.nativeToLogical()),
+                    e=formatNumber(extruderValue),
                     f=formatNumber(self.feedRate / eAxis.unitMultiplier)
                 )
             )
